@@ -1,4 +1,5 @@
 """C09 scan/reduce algebra: running folds, final fold, per-key seed isolation."""
+import copy
 import sys
 
 import rx
@@ -32,12 +33,19 @@ def _app(a, i):
     return a
 
 
+def _nest(a, i):
+    a[0].append(i)
+    return (a[0], a[1] + 1)
+
+
 ACCS = {
     # name: (accumulator, seed value factory (fresh each harness call), terminator, snapshot)
     'add': (lambda a, i: a + i, lambda: 0, lambda a: a * 100 + 1, lambda x: x),
     'maxn': (_maxn, lambda: None, lambda a: (a, 'T'), lambda x: x),
     'app': (_app, lambda: [], lambda a: a + [-1], lambda x: list(x) if isinstance(x, list) else x),
     'pair': (lambda a, i: (a[0] + i, a[1] + 1), lambda: (0, 0), lambda a: (a[0], -a[1]), lambda x: x),
+    # immutable container holding a mutable one that the accumulator mutates in place (the shape of the seed of rs.data.batch)
+    'nest': (_nest, lambda: ([], 0), lambda a: (a[0] + [-1], -a[1]), lambda x: (list(x[0]), x[1]) if isinstance(x, tuple) and len(x) == 2 and isinstance(x[0], list) else x),
 }
 
 
@@ -68,16 +76,16 @@ def scan_runs(p):
         items = list(a)
         seed = mkseed() if p['seedkind'] == 'value' else mkseed
         op = rs.ops.scan(f, seed, reduce=reduce, terminator=term)
-        if ctx == 'plain':
-            got = []
-            D.src(items).pipe(op).subscribe(on_next=lambda v: got.append(snap(v)), on_error=lambda e: got.append(('ERR', repr(e))))
+        if ctx in ('plain', 'root'):
+            # the same pipeline object is subscribed twice: a second subscription is a new lifetime and must start from a fresh seed
+            obs = D.src(items).pipe(op) if ctx == 'plain' else D.src(items).pipe(rs.state.with_memory_store([op]))
             exp = fold(items, f, mkseed, reduce, term, snap)
-            return got == exp or fail(ctx=ctx, items=items, observed=got, expected=exp)
-        if ctx == 'root':
-            got = []
-            D.src(items).pipe(rs.state.with_memory_store([op])).subscribe(on_next=lambda v: got.append(snap(v)), on_error=lambda e: got.append(('ERR', repr(e))))
-            exp = fold(items, f, mkseed, reduce, term, snap)
-            return got == exp or fail(ctx=ctx, items=items, observed=got, expected=exp)
+            for sub in (1, 2):
+                got = []
+                obs.subscribe(on_next=lambda v: got.append(snap(v)), on_error=lambda e: got.append(('ERR', repr(e))))
+                if got != exp:
+                    return fail(ctx=ctx, subscription=sub, items=items, observed=got, expected=exp)
+            return True
         head, tail = [], []
         inner = [D.tap(head), op, D.tap(tail, snap)]
         if ctx == 'group':
@@ -113,6 +121,8 @@ def scan_step(p):
             stored = [st]
         elif p['acc'] == 'pair':
             stored = (st, 1)
+        elif p['acc'] == 'nest':
+            stored = ([st], 1)
         else:
             stored = st
         store = rs.state.StoreManager(store_factory=rs.state.MemoryStore)
@@ -126,14 +136,14 @@ def scan_step(p):
         if has:
             store.set_state(0, key, stored)
         del out[:]
-        base = (stored if not isinstance(stored, list) else list(stored)) if has else mkseed()
+        base = copy.deepcopy(stored) if has else mkseed()
         if p['event'] == 'next':
             s.on_next(rs.OnNextMux(key, v))
             exp_acc = f(base, v)
             got_items = [snap(i.item) for i in out if type(i) is rs.OnNextMux]
             exp_items = [] if reduce else [snap(exp_acc)]
             now = store.get_state(0, key)
-            if got_items != exp_items or now != exp_acc or len(out) != len(exp_items):
+            if got_items != exp_items or snap(now) != snap(exp_acc) or len(out) != len(exp_items):
                 return fail(event='next', stored=stored if has else 'NOTSET', item=v, observed=got_items, expected=exp_items, stored_after=now)
             return True
         s.on_next(rs.OnCompletedMux(key))
